@@ -429,10 +429,6 @@ Section Top.
   Variable B : backend.
   Variable C : cfg.
   Variable OR : oracles.
-  Hypothesis O_lexer_concat : forall lang text toks,
-      o_lex OR lang text = Some toks -> strip1nl (flat_map snd toks) = strip1nl text.
-  Hypothesis O_canon : forall x, D (o_nlt OR x) = D x.
-  Hypothesis O_no_files : forall p, o_path2doc OR p = None.
 
   Notation bld := (build B C OR).
   Notation sktok := (skel_tok D B C OR).
@@ -454,16 +450,16 @@ Section Top.
     ti_title : sec_title (tree s) = true;
     ti_rows : forallb tshape done = true -> rows_ok (tree s) = true;
     ti_tr : forallb hr_top done = true -> transitions_ok [] (tree s) = true;
-    ti_skel : has_dropped (tree s) = false -> skel_node D (tree s) = flat_map sktok done
+    ti_skel : Hyps D OR -> has_dropped (tree s) = false -> skel_node D (tree s) = flat_map sktok done
   }.
 
   Lemma tok_post t : static_tok t = true -> forall ctag f ns f',
     run_f (rt_run (bld t)) ctag f = Some (Good (ns, f')) -> post D B C OR t f ns f'.
-  Proof. apply (all_sub_here _ _ (build_post D B C OR O_lexer_concat O_canon O_no_files t)). Qed.
+  Proof. apply (all_sub_here _ _ (build_post D B C OR t)). Qed.
 
   (* appending nodes with the post-condition at the current node *)
   Lemma tinv_append done s t ns f' :
-    tinv done s -> nodes_ok (tshape t) (hr_free t) (fs s) ns f' -> skel_ok D (sktok t) ns ->
+    tinv done s -> nodes_ok (tshape t) (hr_free t) (fs s) ns f' -> skel_ok D OR (sktok t) ns ->
     (hr_top t = true -> forallb (transitions_ok (tag_at (cur s) (tree s))) ns = true) ->
     tinv (done ++ [t]) (mkI (app_at (cur s) ns (tree s)) (cur s) (lvl s) f').
   Proof.
@@ -481,9 +477,9 @@ Section Top.
     - intro H. rewrite forallb_app in H. apply andb_true_iff in H. destruct H as [H1 H2].
       cbn [forallb] in H2. rewrite andb_true_r in H2. rewrite transitions_app_at by exact I1.
       rewrite (I8 H1), (Htr H2). reflexivity.
-    - intro H. rewrite (dropped_app_at) in H by exact I1. apply orb_false_iff in H. destruct H as [H1 H2].
+    - intros Hy H. rewrite (dropped_app_at) in H by exact I1. apply orb_false_iff in H. destruct H as [H1 H2].
       rewrite skel_app_at by exact I1. rewrite flat_map_app. cbn [flat_map]. rewrite app_nil_r.
-      rewrite (I9 H1), (Hsk H2). reflexivity.
+      rewrite (I9 Hy H1), (Hsk Hy H2). reflexivity.
   Qed.
 
   Lemma st_valid_of done s : tinv done s -> st_valid s.
@@ -604,7 +600,7 @@ Section Top.
       apply run_f_Done_inv in Hr. destruct Hr as [-> ->]. rewrite app_nil_r. cbn [app].
       assert (Hstk : forallb static_tok (children t) = true) by (apply static_kids; auto; rewrite K; exact I).
       assert (Hallk : Forall (tok_ok D B C OR) (children t)).
-      { eapply Forall_impl; [|apply (all_sub_kids _ _ (build_post D B C OR O_lexer_concat O_canon O_no_files t))].
+      { eapply Forall_impl; [|apply (all_sub_kids _ _ (build_post D B C OR t))].
         apply all_sub_here. }
       destruct (kids_post D B C OR (children t) Hallk Hstk _ _ _ _ Hkids) as [[T1 T2 T3 T4] Tsk].
       destruct Hm as [Hm1 Hm2]. destruct Eh as [Eh1 Eh2].
@@ -665,10 +661,10 @@ Section Top.
         rewrite (no_transitions_ok tcs _ (T4 Hh2)). cbn [andb]. rewrite forallb_app.
         rewrite (no_transitions_ok msgs _ (regmsgs_has_tag n_transition msgs Hm1 eq_refl)).
         rewrite (no_transitions_ok ms _ (regmsgs_has_tag n_transition ms Eh1 eq_refl)). reflexivity.
-      - intro Hd. rewrite dropped_app_at in Hd by exact Rpp. apply orb_false_iff in Hd. destruct Hd as [Hd1 Hd2].
+      - intros Hy Hd. rewrite dropped_app_at in Hd by exact Rpp. apply orb_false_iff in Hd. destruct Hd as [Hd1 Hd2].
         unfold tree1 in Hd1. rewrite dropped_app_at in Hd1 by exact I1. apply orb_false_iff in Hd1. destruct Hd1 as [Hd0 _].
         rewrite skel_app_at by exact Rpp. unfold tree1. rewrite skel_app_at by exact I1.
-        rewrite (I9 Hd0), Wsk, app_nil_r, flat_map_app. cbn [flat_map]. rewrite app_nil_r. f_equal.
+        rewrite (I9 Hy Hd0), Wsk, app_nil_r, flat_map_app. cbn [flat_map]. rewrite app_nil_r. f_equal.
         unfold SEC in *. cbn [existsb has_dropped] in Hd2.
         replace (str_eqb n_section k_system_message) with false in Hd2 by reflexivity.
         replace (str_eqb n_title k_system_message) with false in Hd2 by reflexivity. cbn [andb orb] in Hd2.
@@ -678,7 +674,7 @@ Section Top.
         replace (nkind_of n_title) with NHeading by reflexivity. rewrite app_nil_r.
         change (flat_map (skel_node D) tcs) with (skel_nodes D tcs).
         change (flat_map (skel_node D) (msgs ++ ms)) with (skel_nodes D (msgs ++ ms)).
-        rewrite skel_nodes_app, (regmsgs_skel D msgs Hm1), (regmsgs_skel D ms Eh1), (Tsk Hdt).
+        rewrite skel_nodes_app, (regmsgs_skel D msgs Hm1), (regmsgs_skel D ms Eh1), (Tsk Hy Hdt).
         assert (Hsk : sktok t = [SBox CHeading (flat_map sktok (children t))]).
         { destruct t as [ty0 tg0 at0 co0 mk0 in0 me0 mp0 cs0]. cbn [skel_tok ty children] in *. rewrite K. reflexivity. }
         rewrite Hsk. reflexivity. }
@@ -735,7 +731,7 @@ Section Top.
     - reflexivity.
     - intros _. reflexivity.
     - intros _. reflexivity.
-    - intros _. reflexivity.
+    - intros _ _. reflexivity.
   Qed.
 
   (* the observations of the finished tree *)
@@ -744,7 +740,7 @@ Section Top.
     to_sections : sections_ok [] doc = true;
     to_rows : forallb tshape done = true -> rows_ok doc = true;
     to_tr : forallb hr_top done = true -> transitions_ok [] doc = true;
-    to_skel : has_dropped doc = false -> skel_node D doc = flat_map sktok done
+    to_skel : Hyps D OR -> has_dropped doc = false -> skel_node D doc = flat_map sktok done
   }.
 
   Lemma dup_ref_warnings_post n : forall acc f ws f',
@@ -783,7 +779,23 @@ Section Top.
       destruct (no_sections_place new [] W2) as [_ A2]. rewrite A1, A2. reflexivity.
     - intro Hs. rewrite rows_app_at by exact R0. rewrite (I7 Hs), (W3 eq_refl). reflexivity.
     - intro Hh. rewrite transitions_app_at by exact R0. rewrite (I8 Hh), (no_transitions_ok new _ (W4 eq_refl)). reflexivity.
-    - intro Hd. rewrite dropped_app_at in Hd by exact R0. apply orb_false_iff in Hd. destruct Hd as [Hd _].
-      rewrite skel_app_at by exact R0. rewrite (I9 Hd), Wsk, app_nil_r. reflexivity.
+    - intros Hy Hd. rewrite dropped_app_at in Hd by exact R0. apply orb_false_iff in Hd. destruct Hd as [Hd _].
+      rewrite skel_app_at by exact R0. rewrite (I9 Hy Hd), Wsk, app_nil_r. reflexivity.
+  Qed.
+
+  (* ... and its allocation numbers lie below the counter (what the transforms start from) *)
+  Theorem render_state_seg ts s :
+    forallb static_tok ts = true -> forallb top_static ts = true ->
+    render_state B C OR ts = Good s -> seg 0 (nxt (fs s)) (oids (tree s)).
+  Proof.
+    intros Hst Htop H. unfold render_state in H.
+    destruct (run_i (render_tokens B C OR ts) s_init) as [s1|e] eqn:E; [|discriminate].
+    destruct (dup_ref_warnings _ [] (fs s1)) as [[ws f']|e] eqn:Ew; [|discriminate].
+    inversion H; subst s. clear H.
+    pose proof (tinv_tokens ts [] s_init s1 tinv_init Hst Htop E) as [I1 I2 I3 I4 I5 I6 I7 I8 I9].
+    apply dup_ref_warnings_post in Ew. destruct Ew as [new [-> [[W1 W2 W3 W4] [Wsk Wd]]]].
+    change (seg 0 (nxt f') (oids (app_at [] new (tree s1)))). cbn [app] in *.
+    assert (R0 : rightmost [] (tree s1)) by (apply (rightmost_prefix [] (cur s1)); exact I1).
+    rewrite oids_app_at by exact R0. eapply seg_app; eauto.
   Qed.
 End Top.
